@@ -274,6 +274,16 @@ func fresh(seed int64, srpCalls int, out string, streamSeed uint64) {
 				}
 			}
 		}
+		// not a 256-byte window of what was read: is it an exponent of a few bits (A among g^0 .. g^65535)?
+		acc := big.NewInt(1)
+		gB := big.NewInt(grp.g)
+		for e := 0; e < 65536; e++ {
+			if bytes.Equal(pad(acc, 256), o.A) {
+				fmt.Fprintf(f, "H\t%d\tsrp_a\t256\t-1\tSMALL=%d\t-\n", c, e)
+				return
+			}
+			acc.Mul(acc, gB).Mod(acc, grp.pBig)
+		}
 		fmt.Fprintf(f, "H\t%d\tsrp_a\t256\t-1\tA=%s\t-\n", c, hex.EncodeToString(o.A))
 	}
 
